@@ -962,6 +962,11 @@ overload_loop:
 		}
 		clear(genericTypes)
 
+		// a faulty overload declaration (already reported) may have the wrong arity
+		if len(overload.Parameters) != len(operands) {
+			continue
+		}
+
 		operator_overload := &ast.OperatorOverload{
 			Decl: overload,
 			Args: make(map[string]ast.Expression, len(overload.Parameters)),
